@@ -2,6 +2,7 @@ package props
 
 import (
 	"fmt"
+	"regexp"
 	"strings"
 
 	"github.com/philhassey/goatlang"
@@ -67,6 +68,20 @@ var c6flavors = []c6flavor{
 	{[]string{"true", "n%2 == 0", "n < 3"}, "i < 2", "n < 6", "n % 3", []string{"0", "1"}, ""},
 	{[]string{"p+z == p+z", "n%q == z+z", "n < p+q"}, "i < p+p", "n < q+q+q", "n % (p + q)", []string{"z + z", "z + p"}, "\tp, q, z := 1, 2, 0\n\t_, _, _ = p, q, z\n"},
 	{[]string{"q-p == p", "n%q == p-p", "n < q*q-p"}, "i < q/p", "n < q*q+q", "n % (q*q - p)", []string{"p - p", "q - p"}, "\tp, q, z := 1, 2, 0\n\t_, _, _ = p, q, z\n"},
+}
+
+var c6forCondRe = regexp.MustCompile(`(?m)^(\s*)for ([^;{]+) \{$`)
+var c6forEverRe = regexp.MustCompile(`(?m)^(\s*)for \{$`)
+
+// c6emptyParts respells the loops that have only a condition, or nothing, as three-part clauses with empty parts.
+func c6emptyParts(body string) string {
+	body = c6forCondRe.ReplaceAllStringFunc(body, func(l string) string {
+		if strings.Contains(l, "range") {
+			return l
+		}
+		return c6forCondRe.ReplaceAllString(l, "${1}for ; $2; {")
+	})
+	return c6forEverRe.ReplaceAllString(body, "${1}for ; ; {")
 }
 
 type c6ctx struct{ inLoop, inSwitch bool }
@@ -683,7 +698,7 @@ func c6run(r *report.Run) {
 		goEvery = 25
 		nFlavors = 3
 	}
-	r.Rule("all programs of the control-flow mini language (trace/break/continue/return leaves; if, if-else, if-else-if, 3-clause for, condition for, infinite for, range over a slice, range over a value that is a slice or nil depending on the counter, tagged and tagless switch with 1-2 cases (a single case also with a list of two values) and default absent/first/middle/last; blocks of 1-2 statements; conditions true, n%2==0, n<3; each also written on a single source line) with at most N statement nodes that the reference interpreter finishes, each entered with the counter n = 0, 1 and 3, plus all programs with N+1 nodes over the narrow sub-language {leaves, if / if-else on two conditions, range, tagless switch with one case and optional default}; non-trivial = distinct program containing at least one break/continue/return inside a compound statement")
+	r.Rule("all programs of the control-flow mini language (trace/break/continue/return leaves; if, if-else, if-else-if, 3-clause for, condition for, infinite for, range over a slice, range over a value that is a slice or nil depending on the counter, tagged and tagless switch with 1-2 cases (a single case also with a list of two values) and default absent/first/middle/last; blocks of 1-2 statements; conditions true, n%2==0, n<3; each also written on a single source line, and with its condition-only and infinite loops spelled as clauses with empty parts: for ; c; {, for ; ; {) with at most N statement nodes that the reference interpreter finishes, each entered with the counter n = 0, 1 and 3, plus all programs with N+1 nodes over the narrow sub-language {leaves, if / if-else on two conditions, range, tagless switch with one case and optional default}; non-trivial = distinct program containing at least one break/continue/return inside a compound statement")
 	r.Assume("reference interpreter (structured, ~120 lines) is trusted as far as its cross-validation against the Go toolchain reaches: the complete <=4-node layer in every run", "programs the reference does not finish within 1000 steps are dropped (a program it finishes but goatlang does not is a violation)")
 	g := &c6gen{stmts: map[string][]*c6stmt{}, blocks: map[string][][]*c6stmt{}}
 	top := c6ctx{}
@@ -728,6 +743,12 @@ func c6run(r *report.Run) {
 		par.Do(len(batches), func(k int) {
 			b := batches[k]
 			got := c6goat(b.pkg, b.src, len(b.items))
+			if len(b.items) > 1 && strings.HasPrefix(got[0], "LOAD ") {
+				// one program the front end rejects takes the whole package with it: find out which by loading each on its own
+				for i, it := range b.items {
+					got[i] = c6goat(b.pkg, c6pkgSource(b.pkg, []string{it.body}), 1)[0]
+				}
+			}
 			for i, it := range b.items {
 				r.Eval(1)
 				r.Outcome(got[i])
@@ -789,12 +810,19 @@ func c6run(r *report.Run) {
 			}
 			idx++
 			nt := nontrivial(prog)
-			for fl := 0; fl <= nFlavors; fl++ {
+			for fl := 0; fl <= nFlavors+1; fl++ {
 				if fl > 0 && fl < nFlavors && !c6usesConst(prog) {
 					continue // no constant to respell: identical text
 				}
 				var body string
-				if fl == nFlavors {
+				if fl == nFlavors+1 {
+					// spelling: `for cond {` as `for ; cond; {` and `for {` as `for ; ; {` (clauses with empty parts)
+					plain := c6body(prog, 0)
+					body = c6emptyParts(plain)
+					if body == plain {
+						continue
+					}
+				} else if fl == nFlavors {
 					// layout: the plain program written on ONE source line (nothing may depend on line numbers)
 					if size < 2 {
 						continue
